@@ -229,6 +229,46 @@ Proof.
     pose proof (len_nonneg _ l'). lia.
 Qed.
 
+(* ---- extended slices ------------------------------------------------------------------------- *)
+Lemma filter_partition_length : forall (A : Type) (f : A -> bool) (l : list A),
+  (length (filter f l) + length (filter (fun x => negb (f x)) l))%nat = length l.
+Proof.
+  intros A f l. induction l as [|x r IH]; [reflexivity|]. cbn [filter]. destruct (f x); cbn [negb length]; lia.
+Qed.
+
+Lemma filter_none_keeps_all : forall (A : Type) (f : A -> bool) (l : list A),
+  length (filter f l) = O -> filter (fun x => negb (f x)) l = l.
+Proof.
+  intros A f l. induction l as [|x r IH]; [reflexivity|]. cbn [filter]. destruct (f x); cbn [negb length].
+  - discriminate.
+  - intro H. rewrite (IH H). reflexivity.
+Qed.
+
+Lemma map_snd_combine_eq : forall (A B : Type) (a : list A) (l : list B),
+  length a = length l -> map snd (combine a l) = l.
+Proof.
+  intros A B a. induction a as [|x r IH]; intros [|y t] H; try discriminate; [reflexivity|].
+  cbn. f_equal. apply IH. cbn in H. lia.
+Qed.
+
+Lemma zpositions_length : forall (A : Type) (l : list A), length (zpositions l) = length l.
+Proof. intros. unfold zpositions. rewrite combine_length, map_length, seq_length. lia. Qed.
+Lemma zpositions_snd : forall (A : Type) (l : list A), map snd (zpositions l) = l.
+Proof. intros. unfold zpositions. apply map_snd_combine_eq. rewrite map_length, seq_length. reflexivity. Qed.
+
+Lemma xdel_spec : forall (l : list nat) a b step,
+  (xcount l a b step <= length l)%nat /\
+  len (xdel l a b step) = len l - Z.of_nat (xcount l a b step) /\
+  (xcount l a b step = O -> xdel l a b step = l).
+Proof.
+  intros l a b step. unfold xcount, xdel.
+  pose proof (filter_partition_length _ (xsel l a b step) (zpositions l)) as Hp.
+  rewrite zpositions_length in Hp. repeat split.
+  - lia.
+  - unfold len. rewrite map_length. lia.
+  - intro H0. rewrite (filter_none_keeps_all _ _ _ H0). apply zpositions_snd.
+Qed.
+
 Lemma sem_setter_is_validate : forall g l p,
   sem_setter_check (negb (g_present g)) (len l) p false = validate OSem p g (nonempty l).
 Proof.
@@ -284,6 +324,13 @@ Proof.
     + lia.
     + rewrite Z2Nat.id by lia. apply len_list_del_slice; lia.
     + intro H. assert (hi = lo) by lia. subst hi. unfold list_del_slice, zfirstn, zskipn. apply firstn_skipn.
+  - (* DelXSlice *) destruct (step =? 0); [discriminate|]. inversion He; subst.
+    destruct (xdel_spec (items s) start stop step) as (Hk & Hlen & H0).
+    apply del_dry_run_spec; try exact Hwf.
+    + unfold len. lia.
+    + lia.
+    + exact Hlen.
+    + exact H0.
   - (* SetList *) inversion He; subst.
     apply set_hook_spec; [exact Hwf | lia | apply len_nonneg | lia].
   - (* SetType *) destruct o; try discriminate; inversion He; subst.
@@ -305,6 +352,7 @@ Definition plain_error (o : owner) (s : st) (p : op) (e : err) : Prop :=
   | SetItem i _ | DelItem i => e = EIndex /\ norm_index (items s) i = None
   | Remove x => e = EValue /\ ~ In x (items s)
   | SetGaid g => e = EValue /\ g = GBad
+  | DelXSlice _ _ step => e = EValue /\ step = 0
   | SetType _ => e = EAttr /\ o = OAsset
   | _ => False
   end.
@@ -327,6 +375,7 @@ Proof.
   - destruct (norm_index (items s) i) eqn:E; [discriminate|]. inversion H. auto.
   - destruct (norm_index (items s) i) eqn:E; [discriminate|]. inversion H. auto.
   - inversion H. reflexivity.
+  - destruct (Z.eqb_spec step 0); [|discriminate]. inversion H. auto.
   - destruct o; try discriminate; inversion H; split; reflexivity.
   - destruct g; simpl in H; try discriminate. inversion H. auto.
 Qed.
